@@ -87,8 +87,10 @@ class Inst:
     binders Lean binder text of each param (defaults to `(name : type)`)
     """
 
-    def __init__(self, qual, lean, params, ret, doc=''):
+    def __init__(self, qual, lean, params, ret, doc='', kw=None, state=()):
         self.qual, self.lean, self.params, self.ret, self.doc = qual, lean, list(params), ret, doc
+        self.kw = kw                # (python name, type) of a `**kwargs` parameter that is a real binder of the definition
+        self.state = tuple(state)   # parameters the function mutates: their final values are returned next to the result
 
     @property
     def raises(self):
@@ -207,7 +209,8 @@ class Unit:
         tr = FnTr(self, inst, fn)
         body = tr.function_body()
         binders = ' '.join([f'({n} : {t})' for n, t in self.ctx_params] +
-                           [f'({lname(n)} : {lean_type(t)})' for n, t in inst.params if t != 'None'])
+                           [f'({lname(n)} : {lean_type(t)})' for n, t in inst.params if t != 'None'] +
+                           ([f'({lname(inst.kw[0])} : {lean_type(inst.kw[1])})'] if inst.kw else []))
         shown = ast.parse(ast.unparse(fn)).body[0]
         if (shown.body and isinstance(shown.body[0], ast.Expr) and isinstance(getattr(shown.body[0], 'value', None), ast.Constant)
                 and isinstance(shown.body[0].value.value, str) and len(shown.body) > 1):
@@ -245,6 +248,8 @@ class FnTr:
             self.env[n] = Val(lname(n), t, path=n)
         if fn.args.kwarg is not None:
             self.env[fn.args.kwarg.arg] = Val('()', 'Kw')          # **kwargs: only what a unit's `method` hook reads from it
+            if inst.kw:                                              # … or a declared binder (a record the unit's hooks read)
+                self.env[fn.args.kwarg.arg] = Val(lname(inst.kw[0]), inst.kw[1], path=inst.kw[0])
         want = [a.arg for a in fn.args.args]
         have = [n for n, _t in inst.params]
         if want[:len(have)] != have and not (fn.args.kwarg or fn.args.vararg or len(want) > len(have)):
@@ -366,7 +371,7 @@ class FnTr:
             raise Unsupported(f'`{self.inst.qual}`: expression statement `{ast.unparse(s)}`')
         if isinstance(s, ast.Return):
             if s.value is None:
-                raise Unsupported(f'`{self.inst.qual}`: bare return')
+                return self.ret_value(ast.Constant(value=None))       # a bare `return` returns None
             return self.ret_value(s.value)
         if isinstance(s, ast.Raise):
             exc = s.exc
@@ -382,6 +387,9 @@ class FnTr:
             return self.for_stmt(s, rest)
         if isinstance(s, ast.While):
             return self.while_stmt(s, rest)
+        more = self.block_more(s, rest)
+        if more is not None:
+            return more
         raise Unsupported(f'`{self.inst.qual}`: statement `{type(s).__name__}`: {ast.unparse(s)[:80]}')
 
     def is_super_init(self, e, any_args=False):
@@ -399,6 +407,8 @@ class FnTr:
             return self.branch(first, lambda tr: tr.ret_value(more), lambda tr: tr.ok('false'))
         v = self.expr(e, allow_raise=True)
         want = self.inst.value_type
+        if self.inst.state:
+            return self.ret_with_state(v)
         if getattr(v, 'raises', False):
             if not self.inst.raises:
                 raise Unsupported(f'`{self.inst.qual}`: returns a call that may raise, but is declared not to raise')
@@ -418,6 +428,10 @@ class FnTr:
             return 'none'
         if want == 'Bool' and v.typ.startswith('Opt '):
             raise Unsupported(f'`{self.inst.qual}`: returns an Optional where a bool is declared')
+        if 'coerce' in self.u.hooks:
+            r = self.u.hooks['coerce'](self, v, want)
+            if r is not None:
+                return r
         raise Unsupported(f'`{self.inst.qual}`: value of type {v.typ} where {want} is declared: `{v.text}`')
 
     def if_stmt(self, s, rest):
@@ -475,12 +489,15 @@ class FnTr:
             node, positive = test.left, isinstance(test.ops[0], ast.IsNot)
         elif isinstance(test, (ast.Compare, ast.BoolOp, ast.UnaryOp, ast.Call)):
             return None
+        npend, nfresh = len(self.pending), self.fresh
         try:
             v = self.expr(node)
         except Unsupported:
             return None
         if v.path is not None and v.typ.startswith('Opt '):
             return v, positive
+        del self.pending[npend:]        # a probe only: raising calls met on the way are bound where the test is translated
+        self.fresh = nfresh if len(self.pending) == npend else self.fresh
         return None
 
     def static_test(self, test):
@@ -523,6 +540,8 @@ class FnTr:
             return None
         if isinstance(test, ast.Constant) and isinstance(test.value, bool):
             return test.value
+        if isinstance(test, ast.Name) and test.id in self.env and test.id not in self.narrow and self.env[test.id].typ == 'None':
+            return False            # a parameter left at (or an instance declared at) None
         return None
 
     def assign(self, s, rest):
@@ -596,6 +615,8 @@ class FnTr:
             elif isinstance(t, ast.Attribute) and isinstance(t.value, ast.Name) and t.value.id == 'self' \
                     and self.inst.qual.endswith('.__init__'):
                 self.fields[t.attr] = v
+            elif isinstance(t, ast.Subscript) and (t, v) == pairs[-1]:
+                return '\n'.join(lets + [self.assign_item(t, v, rest)])
             else:
                 raise Unsupported(f'`{self.inst.qual}`: assignment to `{ast.unparse(t)}`')
         return '\n'.join(lets + [self.block(rest)])
@@ -803,6 +824,10 @@ class FnTr:
             return 'true'
         if v.typ.startswith('List '):
             return f'!({v.text}).isEmpty'
+        if 'truth' in self.u.hooks:
+            r = self.u.hooks['truth'](self, v)
+            if r is not None:
+                return r
         raise Unsupported(f'truthiness of {v.typ}')
 
     def expr(self, e, allow_raise=False):
@@ -816,6 +841,9 @@ class FnTr:
         return v
 
     def _expr(self, e):
+        more = self.expr_more(e)
+        if more is not None:
+            return more
         if isinstance(e, ast.Name):
             if e.id in self.narrow:
                 return self.narrow[e.id]
@@ -1094,6 +1122,9 @@ class FnTr:
             hook = self.u.hooks.get('keywords')
             if not (hook and hook(self, e)):
                 raise Unsupported(f'`{self.inst.qual}`: keyword arguments in `{ast.unparse(e)[:80]}`')
+        more = self.call_more(e)
+        if more is not None:
+            return more
         f = e.func
         if isinstance(f, ast.Call) and isinstance(f.func, ast.Name) and f.func.id == 'type' and len(f.args) == 1 \
                 and 'type_ctor' in self.u.hooks:
@@ -1201,6 +1232,8 @@ class FnTr:
             if xss.typ.startswith('List List '):
                 return Val(f'(({xss.text}).flatten)', xss.typ[5:])
             raise Unsupported(f'flattening of {xss.typ}')
+        if len(e.generators) == 1 and not e.generators[0].ifs:
+            return self.map_comp(e.elt, e.generators[0])          # `[f(x) for x in xs]`
         if len(e.generators) != 1 or not isinstance(e.generators[0].target, ast.Name) or len(e.generators[0].ifs) != 1 \
                 or not (isinstance(e.elt, ast.Name) and e.elt.id == e.generators[0].target.id):
             raise Unsupported(f'`{self.inst.qual}`: comprehension other than `[x for x in xs if c]`')
@@ -1257,6 +1290,279 @@ class FnTr:
             return v
         self.fresh = inner.fresh
         return Val(f'(({xs.text}).{which} (fun {x} => {c}))', 'Bool')
+
+    # ---- further constructs (added with the GeoJSON unit; each is generic Python) --------------------------
+    def block_more(self, s, rest):
+        if isinstance(s, ast.AugAssign) and isinstance(s.target, ast.Name) and isinstance(s.op, (ast.Add, ast.Sub, ast.Mult)):
+            # `x += e` is `x = x + e`
+            new = ast.Assign(targets=[s.target], value=ast.BinOp(left=ast.Name(id=s.target.id, ctx=ast.Load()), op=s.op, right=s.value))
+            return self.assign(ast.copy_location(new, s), rest)
+        if isinstance(s, ast.FunctionDef):
+            return self.local_def(s, rest)
+        return None
+
+    def local_def(self, s, rest):
+        """a nested `def`: a local Lean function (`let f := fun … => …`); its parameter and result types are declared by
+        the unit (`hooks['local_fn']`); names of the enclosing function stay visible"""
+        hook = self.u.hooks.get('local_fn')
+        spec = hook(self.inst.qual, s.name) if hook else None
+        if not spec or s.decorator_list:
+            raise Unsupported(f'`{self.inst.qual}`: nested function `{s.name}` without declared types')
+        params, ret = spec
+        inst = Inst(f'{self.inst.qual}.<locals>.{s.name}', s.name, params, ret)
+        sub = FnTr(self.u, inst, s)
+        for n, v in self.env.items():
+            sub.env.setdefault(n, v)
+        sub.fresh, sub.aux = self.fresh, self.aux
+        body = sub.function_body()
+        self.fresh = sub.fresh
+        nm = self.gensym(lname(s.name))
+        binders = ' '.join(f'({lname(n)} : {lean_type(t)})' for n, t in params if t != 'None') or '(_ : Unit)'
+        v = Val(nm, 'LocalFn')
+        v.localfn = inst
+        self.env[s.name] = v
+        return f'let {nm} := fun {binders} => (show {lean_type(ret)} from\n{_indent(body, 4)})\n' + self.block(rest)
+
+    def ret_with_state(self, v):
+        """`return v` of a function that mutates some of its parameters (`Inst.state`): the result paired with the final
+        values of those parameters"""
+        parts = _prod_parts(self.inst.value_type)
+        want = parts[0]
+        states = ', '.join(self.env[n].text for n in self.inst.state)
+        if getattr(v, 'raises', False):
+            nm = self.gensym('r')
+            return self.wrap(f'match {v.text} with\n| Except.error e => Except.error e\n| Except.ok {nm} =>\n'
+                             f'  Except.ok ({self.coerce(Val(nm, v.typ), want)}, {states})')
+        return self.wrap(self.ok(f'({self.coerce(v, want)}, {states})'))
+
+    def assign_item(self, t, v, rest):
+        """`d[key] = value` on a *fresh* local dict (a display, `dict(…)`, `.copy()`): the dict with the key set"""
+        to_j = self.u.hooks.get('to_j')
+        if not (to_j and isinstance(t.value, ast.Name) and t.value.id in self.env and self.env[t.value.id].typ == 'JObj'
+                and getattr(self.env[t.value.id], 'fresh_dict', False)):
+            raise Unsupported(f'`{self.inst.qual}`: store into `{ast.unparse(t)}` (not a fresh local dict)')
+        name = t.value.id
+        d = self.env[name]
+        key = self.expr(t.slice)
+        if key.typ != 'Str':
+            raise Unsupported(f'dict store with a key of type {key.typ}')
+        nm = self.gensym(lname(name))
+        new = Val(nm, 'JObj', path=name)
+        new.fresh_dict = True
+        if getattr(v, 'raises', False):
+            r = self.gensym('r')
+            self.env[name] = new
+            self.narrow.pop(name, None)
+            inner = f'let {nm} := (GV.GeoJson.oset {d.text} {key.text} {to_j(self, Val(r, v.typ))})\n' + self.block(rest)
+            return self.wrap('\n'.join([f'match {v.text} with', '| Except.error e => Except.error e', f'| Except.ok {r} =>', _indent(inner)]))
+        self.env[name] = new
+        self.narrow.pop(name, None)
+        pend, self.pending = self.pending, []
+        inner = f'let {nm} := (GV.GeoJson.oset {d.text} {key.text} {to_j(self, v)})\n' + self.block(rest)
+        self.pending = pend
+        return self.wrap(inner)
+
+    def expr_more(self, e):
+        """expression forms beyond the first subset; None = not one of them (the older rules apply)"""
+        if isinstance(e, ast.Constant) and isinstance(e.value, str):
+            return Val(_lean_str(e.value), 'Str')
+        if isinstance(e, ast.Dict):
+            return self.dict_display(e)
+        if isinstance(e, ast.BinOp) and isinstance(e.op, ast.BitXor):
+            a, b = self.expr(e.left), self.expr(e.right)
+            if a.typ == b.typ == 'Bool':
+                return Val(f'(xor {a.text} {b.text})', 'Bool')
+            raise Unsupported(f'`^` on {a.typ}, {b.typ}')
+        if isinstance(e, ast.Tuple) and len(e.elts) == 4 and not any(isinstance(x, ast.Starred) for x in e.elts):
+            vals = [self.expr(x) for x in e.elts]
+            if all(v.typ == vals[0].typ for v in vals):
+                return Val('(' + ', '.join(v.text for v in vals) + ')', 'Tuple4 ' + vals[0].typ)
+            raise Unsupported(f'tuple `{ast.unparse(e)[:60]}` of mixed types')
+        if isinstance(e, ast.Subscript):
+            sl = e.slice
+            minus1 = lambda n: isinstance(n, ast.UnaryOp) and isinstance(n.op, ast.USub) and isinstance(n.operand, ast.Constant) and n.operand.value == 1
+            if isinstance(sl, ast.Slice) and sl.lower is None and sl.upper is None and sl.step is not None and minus1(sl.step):
+                v = self.expr(e.value)                                   # `xs[::-1]`
+                if v.typ.startswith('List '):
+                    return Val(f'(({v.text}).reverse)', v.typ)
+                raise Unsupported(f'`[::-1]` of {v.typ}')
+            if isinstance(sl, ast.Slice) and sl.lower is None and sl.step is None and isinstance(sl.upper, ast.Constant) \
+                    and isinstance(sl.upper.value, int) and sl.upper.value >= 0:
+                v = self.expr(e.value)                                   # `xs[:n]`
+                if v.typ.startswith('List '):
+                    return Val(f'(({v.text}).take {sl.upper.value})', v.typ)
+                raise Unsupported(f'`[:n]` of {v.typ}')
+            if minus1(sl):
+                v = self.expr(e.value)                                   # `xs[-1]`: IndexError on the empty list
+                if v.typ.startswith('List '):
+                    r = Val(f'(GV.Py.getLast {_paren(v.text)})', v.typ[5:])
+                    r.raises = True
+                    return r
+                raise Unsupported(f'`[-1]` of {v.typ}')
+        if isinstance(e, ast.IfExp) and self.static_test(e.test) is None and not self.has_optional_test(e.test):
+            # an arm that may raise is only evaluated when it is chosen
+            ta, tb = self.sub(), self.sub()
+            ta.fresh = tb.fresh = self.fresh
+            try:
+                a, b = ta.expr(e.body), tb.expr(e.orelse)
+            except Unsupported:
+                return None
+            if ta.pending or tb.pending:
+                if not self.inst.raises:
+                    raise Unsupported(f'`{self.inst.qual}`: a call that may raise inside an expression: `{ast.unparse(e)[:80]}`')
+                if a.typ != b.typ:
+                    raise Unsupported(f'conditional expression of types {a.typ} / {b.typ}')
+                c = self.truth(self.expr(e.test))
+                self.fresh = max(ta.fresh, tb.fresh)
+                r = Val(f'(if {c} then\n{_indent(ta.wrap("Except.ok " + _paren(a.text)))}\nelse\n'
+                        f'{_indent(tb.wrap("Except.ok " + _paren(b.text)))})', a.typ)
+                r.raises = True
+                return r
+            return None
+        if isinstance(e, ast.BoolOp) and isinstance(e.op, ast.Or) and len(e.values) == 2 \
+                and all(isinstance(x, (ast.Name, ast.Attribute, ast.Dict, ast.Constant)) for x in e.values):
+            r = self.or_value(e)
+            if r is not None:
+                return r
+        hook = self.u.hooks.get('expr')
+        return hook(self, e) if hook else None
+
+    def or_value(self, e):
+        """`a or b` used for its *value* (operands are not booleans): Python returns the first truthy operand, else the last"""
+        try:
+            a, b = self.expr(e.values[0]), self.expr(e.values[1])
+        except Unsupported:
+            return None
+        truthy = self.u.hooks.get('always_truthy', ())
+        if a.typ == 'Bool' or b.typ == 'Bool':
+            return None
+        if a.typ == 'None':
+            return b
+        if a.typ == 'Opt JObj' and b.typ == 'JObj':
+            d = self.gensym('d')
+            r = Val(f'(match {a.text} with | some {d} => (if !({d}).isEmpty then {d} else {b.text}) | none => {b.text})', 'JObj')
+            return r
+        if a.typ == 'JObj' and b.typ == 'JObj':
+            return Val(f'(if !({a.text}).isEmpty then {a.text} else {b.text})', 'JObj')
+        if a.typ in truthy and not a.typ.startswith('Opt '):
+            return a
+        if a.typ.startswith('Opt ') and a.typ[4:] in truthy and b.typ in (a.typ, a.typ[4:], 'None'):
+            x = self.gensym('x')
+            bt = b.text if b.typ == a.typ else ('none' if b.typ == 'None' else f'some {_paren(b.text)}')
+            return Val(f'(match {a.text} with | some {x} => some {x} | none => {bt})', a.typ)
+        return None
+
+    def dict_display(self, e):
+        """`{'k': v, **d, …}`: a dict with string keys, in insertion order (`GV.GeoJson.Obj`); a later key overrides an earlier
+        one in place, as in Python; values are brought to JSON values by the unit's `to_j`"""
+        to_j = self.u.hooks.get('to_j')
+        if not to_j:
+            raise Unsupported(f'`{self.inst.qual}`: dict display `{ast.unparse(e)[:60]}`')
+        acc = '([] : GV.GeoJson.Obj)'
+        for k, v in zip(e.keys, e.values):
+            if k is None:
+                d = self.expr(v)
+                if d.typ != 'JObj':
+                    raise Unsupported(f'`**` of {d.typ} in a dict display')
+                acc = f'(GV.GeoJson.oupdate {acc} {d.text})'
+            else:
+                kk, vv = self.expr(k), self.expr(v)
+                if kk.typ != 'Str':
+                    raise Unsupported(f'dict key of type {kk.typ}')
+                acc = f'(GV.GeoJson.oset {acc} {kk.text} {to_j(self, vv)})'
+        r = Val(acc, 'JObj')
+        r.fresh_dict = True
+        return r
+
+    def call_more(self, e):
+        """calls beyond the first subset; None = not one of them"""
+        f = e.func
+        if isinstance(f, ast.Name) and not e.keywords:
+            if f.id in self.env and getattr(self.env[f.id], 'localfn', None) is not None:
+                inst = self.env[f.id].localfn
+                args = [self.expr(a) for a in e.args]
+                if len(args) > len(inst.params) or [a.typ for a in args] != [t for _n, t in inst.params[:len(args)]]:
+                    raise Unsupported(f'`{f.id}` applied to ({", ".join(a.typ for a in args)})')
+                shown = [_paren(a.text) for a, (_n, t) in zip(args, inst.params) if t != 'None'] or ['()']
+                v = Val('(' + ' '.join([self.env[f.id].text] + shown) + ')', inst.value_type)
+                v.raises = inst.raises
+                return v
+            if f.id == 'sum' and len(e.args) == 1 and isinstance(e.args[0], (ast.GeneratorExp, ast.ListComp)) \
+                    and len(e.args[0].generators) == 1 and not e.args[0].generators[0].ifs:
+                xs = self.map_comp(e.args[0].elt, e.args[0].generators[0])
+                if getattr(xs, 'raises', False) or xs.typ != 'List R':
+                    raise Unsupported(f'sum() over {xs.typ}')
+                return Val(f'(({xs.text}).foldl (· + ·) 0)', 'R')          # Python's sum starts from the int 0
+            if f.id == 'map' and len(e.args) == 2 and isinstance(e.args[0], ast.Lambda) and len(e.args[0].args.args) == 1 \
+                    and not e.args[0].args.defaults:
+                lam = e.args[0]
+                gen = ast.comprehension(target=ast.Name(id=lam.args.args[0].arg, ctx=ast.Store()), iter=e.args[1], ifs=[], is_async=0)
+                return self.map_comp(lam.body, gen)                         # consumed as a list (iteration order is the same)
+            if f.id in ('list', 'tuple') and len(e.args) == 1:
+                v = self.expr(e.args[0], allow_raise=True)
+                if v.typ.startswith('List '):
+                    return v                                                 # a (new) list with the same elements
+                raise Unsupported(f'{f.id}() of {v.typ}')
+            if f.id == 'reversed' and len(e.args) == 1:
+                v = self.expr(e.args[0])
+                if v.typ.startswith('List '):
+                    return Val(f'(({v.text}).reverse)', v.typ)            # only ever consumed as a sequence
+                raise Unsupported(f'reversed() of {v.typ}')
+            if f.id == 'abs' and len(e.args) == 1:
+                v = self.expr(e.args[0])
+                if v.typ == 'R':
+                    return Val(f'(GV.absR {v.text})', 'R')
+                raise Unsupported(f'abs() of {v.typ}')
+        hook = self.u.hooks.get('call')
+        return hook(self, e) if hook else None
+
+    def map_comp(self, elt, gen):
+        """`[f(x) for x in xs]` (also the body of `sum(…)` / `map(lambda …)`): `List.map`, or a left-to-right `mapE` in
+        `Except` when `f` may raise"""
+        tgt = gen.target
+        pair = isinstance(tgt, ast.Tuple) and len(tgt.elts) == 2 and all(isinstance(t, ast.Name) for t in tgt.elts)
+        if not (isinstance(tgt, ast.Name) or pair) or gen.ifs:
+            raise Unsupported(f'`{self.inst.qual}`: comprehension target `{ast.unparse(tgt)}`')
+        xs = self.expr(gen.iter)
+        if not xs.typ.startswith('List '):
+            raise Unsupported(f'comprehension over {xs.typ}')
+        x = self.gensym(lname(tgt.id) if not pair else 'pair')
+        inner = self.sub()
+        inner.fresh = self.fresh
+        if pair:
+            parts = _prod_parts(xs.typ[5:])
+            if len(parts) != 2:
+                raise Unsupported(f'unpacking {xs.typ[5:]} into two names')
+            for i, t in enumerate(tgt.elts):
+                inner.env[t.id] = Val(f'{x}.{i + 1}', parts[i], path=t.id)
+                inner.narrow.pop(t.id, None)
+        else:
+            inner.env[tgt.id] = Val(x, xs.typ[5:], path=tgt.id)
+            inner.narrow.pop(tgt.id, None)
+        v = inner.expr(elt)
+        self.fresh = inner.fresh
+        if inner.pending:
+            body = inner.wrap(f'Except.ok {_paren(v.text)}')
+            r = Val(f'(GV.Py.mapE (fun {x} => (show Except String {_paren(lean_type(v.typ))} from\n{_indent(body, 4)})) {_paren(xs.text)})',
+                    'List ' + v.typ)
+            r.raises = True
+            return r
+        return Val(f'(({xs.text}).map (fun {x} => {v.text}))', 'List ' + v.typ)
+
+
+def _lean_str(s):
+    """a Lean string literal"""
+    out = []
+    for ch in s:
+        if ch in ('"', '\\'):
+            out.append('\\' + ch)
+        elif ch == '\n':
+            out.append('\\n')
+        elif 32 <= ord(ch) < 127:
+            out.append(ch)
+        else:
+            out.append('\\u{%x}' % ord(ch))
+    return '"' + ''.join(out) + '"'
 
 
 def _prod_parts(t):
